@@ -4,6 +4,9 @@ CONSTANTS
   ParamBypass = TRUE
   Cap = 2
   MaxOps = 5
+  DegreePins = TRUE
+  Acts = {"compile"}
 INVARIANT C14_NoCrossTalk
+INVARIANT C14_DegreeOwn
 INVARIANT C14_Bounded
 CHECK_DEADLOCK FALSE
